@@ -29,3 +29,7 @@ pub open spec fn div_need(l: int, n: int) -> int { if n <= 32 || l - n <= 32 { 0
 /// not verified in the resource units (arbitrary value, no contract; the tail does not mention `memory`: checked by D20u)
 #[verifier::external_body]
 pub fn __cut_tail<T>() -> T { unimplemented!() }
+
+/// scratch Words of gcd/lehmer.rs gcd_ext_in_place on an lhs of nl words: the cofactor buffers t0, t1 (nl + 1 words each) and,
+/// from the rest, the Euclidean divisions and the cofactor products (smaller factor <= ceil(nl / 2) words)
+pub open spec fn ext_need(nl: int) -> int { 2 * (nl + 1) + gneed((nl + 1) / 2) }
